@@ -115,26 +115,69 @@ def ty_has_union(t):
     return False
 
 
-def py_ty(t, cur=None):
-    """annotation text; classes not yet defined (>= cur) are quoted forward references"""
+def _has_quoted(t, cur, self_c):
+    if t[0] == "dc":
+        return cur is not None and t[1] >= cur and t[1] != self_c
+    if t[0] == "list":
+        return _has_quoted(t[2], cur, self_c)
+    if t[0] == "opt":
+        return _has_quoted(t[1], cur, self_c)
+    return False
+
+
+def py_ty(t, cur=None, sp=None, self_c=None):
+    """Annotation text.  Classes not yet defined (>= cur) are quoted forward references.  sp = spelling options of
+    the schema (the *same* type written differently goes through different branches of the packer/unpacker
+    registries): "pep604" (X | None, A | B), "builtin" (list[T], tuple[T, ...], dict[str, T]), "abc"
+    (Sequence[T], Mapping[str, T]); self_c = the class to be written as typing.Self.  Quoted references cannot be
+    combined with | or builtin generics, those annotations keep the typing spelling."""
+    sp = sp or {}
+    plain = _has_quoted(t, cur, self_c)
     if t[0] == "int":
         return "int"
     if t[0] == "dc":
+        if self_c is not None and t[1] == self_c:
+            return "Self"
         return f'"K{t[1]}"' if cur is not None and t[1] >= cur else f"K{t[1]}"
     if t[0] == "list":
-        inner = py_ty(t[2], cur)
+        inner = py_ty(t[2], cur, sp, self_c)
+        if sp.get("builtin") and not plain:
+            return {"list": f"list[{inner}]", "tuple": f"tuple[{inner}, ...]", "dict": f"dict[str, {inner}]"}[t[1]]
+        if sp.get("abc") and t[1] != "tuple":
+            return {"list": f"Sequence[{inner}]", "dict": f"Mapping[str, {inner}]"}[t[1]]
         return {"list": f"List[{inner}]", "tuple": f"Tuple[{inner}, ...]", "dict": f"Dict[str, {inner}]"}[t[1]]
     if t[0] == "opt":
-        return f"Optional[{py_ty(t[1], cur)}]"
+        inner = py_ty(t[1], cur, sp, self_c)
+        if sp.get("pep604") and not plain:
+            return f"{inner} | None"
+        return f"Optional[{inner}]"
     if t[0] == "union":
-        return "Union[" + ", ".join(py_ty(["dc", c], cur) for c in t[1]) + "]"
+        if sp.get("pep604"):
+            return " | ".join(py_ty(["dc", c], cur, sp, self_c) for c in t[1])
+        return "Union[" + ", ".join(py_ty(["dc", c], cur, sp, self_c) for c in t[1]) + "]"
     raise ValueError(t)
+
+
+def field_ann(schema, c, n):
+    """annotation of field n as written in class c"""
+    sp = schema.get("spell") or {}
+    e = schema["names"][str(n)]
+    cur = None if schema.get("future_ann") else c
+    self_c = c if e.get("self") else None
+    if sp.get("annotated") and e.get("annotated"):
+        # Optional[Annotated[T, ..]], not Annotated[Optional[T], ..]: for the latter without a default /repo's to_dict
+        # raises AttributeError on None (nullability is decided before Annotated is unwrapped) - not a C19 matter
+        if e["ty"][0] == "opt":
+            inner = py_ty(e["ty"][1], cur=cur, sp=sp, self_c=self_c)
+            return f'Optional[Annotated[{inner}, "meta"]]'
+        return f'Annotated[{py_ty(e["ty"], cur=cur, sp=sp, self_c=self_c)}, "meta"]'
+    return py_ty(e["ty"], cur=cur, sp=sp, self_c=self_c)
 
 
 PRELUDE = '''\
 import copy
 from dataclasses import dataclass, field
-from typing import Any, Dict, List, Optional, Tuple, Union
+from typing import Annotated, Any, Dict, List, Mapping, Optional, Self, Sequence, Tuple, Union
 from mashumaro.config import (BaseConfig, ADD_SERIALIZATION_CONTEXT, ADD_DIALECT_SUPPORT,
                               TO_DICT_ADD_OMIT_NONE_FLAG, TO_DICT_ADD_BY_ALIAS_FLAG)
 from mashumaro.dialect import Dialect
@@ -210,7 +253,7 @@ def class_source(schema) -> str:
         out.append(f"class K{c}{bases}:")
         body = []
         for n in k["own_fields"]:
-            ann = py_ty(name_ty(schema, n), cur=c)
+            ann = field_ann(schema, c, n)
             if name_default(schema, n):
                 body.append(f"    f{n}: {ann} = None")
             else:
@@ -394,7 +437,10 @@ def wire_of(schema, v, drop_default_none=False):
 
 def _union_orders_ann(a, out):
     import typing
-    if typing.get_origin(a) is typing.Union:
+    import types as _types
+    if typing.get_origin(a) is typing.Annotated:
+        return _union_orders_ann(typing.get_args(a)[0], out)
+    if typing.get_origin(a) in (typing.Union, _types.UnionType):
         ms = [x for x in typing.get_args(a) if x is not type(None)]
         if len(ms) >= 2:
             out.append([getattr(x, "__name__", str(x)) for x in ms])
@@ -418,8 +464,8 @@ class HarnessError(Exception):
     pass
 
 
-def ann_of(mod, t):
-    a = eval(py_ty(t), dict(mod.__dict__))
+def ann_of(mod, t, sp=None):
+    a = eval(py_ty(t, sp=sp), dict(mod.__dict__))
     # typing's subscription cache is keyed order-insensitively on Union arguments: make sure the annotation
     # object really has the member order the case (and the Coq model) assumes
     if _union_orders_ann(a, []) != _union_orders_ty(t, []):
@@ -533,7 +579,7 @@ def run_ser(mod, schema, root_ty, value, entry):
     token = Token()
     reset(mod)
     res = {"ok": True, "exc": None, "out": None}
-    ann = ann_of(mod, root_ty) if entry["via"] == "codec" else None
+    ann = ann_of(mod, root_ty, schema.get("spell")) if entry["via"] == "codec" else None
     try:
         if entry["via"] == "mixin":
             meth = getattr(obj, entry["method"])
@@ -584,7 +630,7 @@ def run_de(mod, schema, root_ty, wire, entry):
     reset(mod)
     res = {"ok": True, "exc": None, "result": None, "checks": []}
     obj = None
-    ann = ann_of(mod, root_ty) if entry["via"] == "codec" else None
+    ann = ann_of(mod, root_ty, schema.get("spell")) if entry["via"] == "codec" else None
     try:
         if entry["via"] == "mixin":
             cls = getattr(mod, f"K{root_ty[1]}")
